@@ -42,6 +42,10 @@ import (
 type scenario struct {
 	ID      string     `json:"id"`
 	Scripts [][]string `json:"scripts"`
+	// Phases: how many of the messages are published together; the next phase is published once
+	// every earlier message has been acknowledged (default: all at once). Lets a scenario put the
+	// pusher's adaptive window at an exact value before a failure.
+	Phases []int `json:"phases,omitempty"`
 }
 
 var successCodes = []int{200, 201, 202, 204}
@@ -292,34 +296,49 @@ func run(sc *scenario, scratch string, seed int64) ([]map[string]any, error) {
 		return nil, fmt.Errorf("subscription lookup: %v", err)
 	}
 	// publish first, then start the pusher (the production supervisor starts one pusher per push subscription)
-	req := &pubsubpb.PublishRequest{Topic: topic}
-	var recs []*pubRec
-	for i := range sc.Scripts {
-		r := &pubRec{body: []byte(fmt.Sprintf(bodies[(int(seed)+i)%len(bodies)], 1000+i)), attrs: map[string]string{}, key: ""}
-		if i%2 == 0 {
-			r.attrs = map[string]string{"k": fmt.Sprintf("v%d", i), "é": "<&>"}
-		}
-		if i%3 == 0 {
-			r.key = fmt.Sprintf("key-%d", i)
-		}
-		recs = append(recs, r)
-		req.Messages = append(req.Messages, &pubsubpb.PubsubMessage{Data: r.body, Attributes: r.attrs, OrderingKey: r.key})
-	}
-	mu.Lock()
-	resp, err := w.Pub.Publish(cctx, req)
-	if err != nil {
-		mu.Unlock()
-		return nil, err
+	phases := sc.Phases
+	if len(phases) == 0 {
+		phases = []int{len(sc.Scripts)}
 	}
 	published := []int{}
-	for i, id := range resp.MessageIds {
-		recs[i].id = id
-		pubs[id] = recs[i]
-		model[id] = i + 1
-		published = append(published, i+1)
-		emit(map[string]any{"op": "Publish", "m": i + 1})
+	next := 0
+	publishPhase := func(n int) error {
+		req := &pubsubpb.PublishRequest{Topic: topic}
+		var recs []*pubRec
+		for i := next; i < next+n && i < len(sc.Scripts); i++ {
+			r := &pubRec{body: []byte(fmt.Sprintf(bodies[(int(seed)+i)%len(bodies)], 1000+i)), attrs: map[string]string{}, key: ""}
+			if i%2 == 0 {
+				r.attrs = map[string]string{"k": fmt.Sprintf("v%d", i), "é": "<&>"}
+			}
+			if i%3 == 0 {
+				r.key = fmt.Sprintf("key-%d", i)
+			}
+			recs = append(recs, r)
+			req.Messages = append(req.Messages, &pubsubpb.PubsubMessage{Data: r.body, Attributes: r.attrs, OrderingKey: r.key})
+		}
+		if len(recs) == 0 {
+			return nil
+		}
+		mu.Lock()
+		defer mu.Unlock()
+		resp, err := w.Pub.Publish(cctx, req)
+		if err != nil {
+			return err
+		}
+		for i, id := range resp.MessageIds {
+			recs[i].id = id
+			pubs[id] = recs[i]
+			model[id] = next + i + 1
+			published = append(published, next+i+1)
+			emit(map[string]any{"op": "Publish", "m": next + i + 1})
+		}
+		next += len(recs)
+		return nil
 	}
-	mu.Unlock()
+	if err := publishPhase(phases[0]); err != nil {
+		return nil, err
+	}
+	phases = phases[1:]
 
 	pctx, pcancel := context.WithCancel(world.ActorCtx(ctx, "pusher"))
 	done := make(chan error, 1)
@@ -346,6 +365,14 @@ func run(sc *scenario, scratch string, seed int64) ([]map[string]any, error) {
 					}
 				}
 			}
+		}
+		if len(acked) == len(published) && len(phases) > 0 {
+			if err := publishPhase(phases[0]); err != nil {
+				pcancel()
+				return nil, err
+			}
+			phases = phases[1:]
+			continue
 		}
 		if len(acked) == len(published) || time.Now().After(deadline) {
 			break
